@@ -301,6 +301,49 @@ func prop(c Case) error {
 		if err := checkBounds(g.Kind+".Bounds() after its ordinates were rewritten in place", t.Bounds(), g.ReportedLayout(), r2); err != nil {
 			return err
 		}
+		// a collection nested in the collection grows by a point of another layout (the
+		// outer collection may have declared its layout before): the bounds of the outer
+		// collection are those of everything it holds now
+		if outer, ok := t.(*geom.GeometryCollection); ok {
+			var nested func(c *geom.GeometryCollection) *geom.GeometryCollection
+			nested = func(c *geom.GeometryCollection) *geom.GeometryCollection {
+				for _, m := range c.Geoms() {
+					if in, ok := m.(*geom.GeometryCollection); ok {
+						if deeper := nested(in); deeper != nil && len(r2)%2 == 0 {
+							return deeper
+						}
+						return in
+					}
+				}
+				return nil
+			}
+			if in := nested(outer); in != nil {
+				// the outer collection declares the layout its members have now, if they agree
+				if l := outer.Layout(); l != geom.NoLayout {
+					_ = outer.SetLayout(l)
+				}
+				pl := []geom.Layout{geom.XYZM, geom.XYZ, geom.XYM, geom.XY}[len(held)%4]
+				co := []float64{2001, -2002, 2003, -2004}[:pl.Stride()]
+				if err := in.Push(geom.NewPointFlat(pl, co)); err == nil {
+					r3 := ref{}
+					for k, v := range r2 {
+						r3[k] = v
+					}
+					names := dims(pl)
+					r3.touch(names)
+					for i, n := range names {
+						x := r3[n]
+						x.lo, x.hi = math.Min(x.lo, co[i]), math.Max(x.hi, co[i])
+						r3[n] = x
+					}
+					want := join(g.ReportedLayout(), pl)
+					r3.touch(dims(want))
+					if err := checkBounds(fmt.Sprintf("%s.Bounds() after a %v point was pushed into a collection nested in it", g.Kind, pl), outer.Bounds(), want, r3); err != nil {
+						return err
+					}
+				}
+			}
+		}
 		return nil
 	case "extend":
 		var ts []geom.T
